@@ -100,6 +100,8 @@ type c20reader struct {
 	calls   int32
 	cancel  context.CancelFunc
 	frames  [][]byte
+	ciIdx   map[*gopacket.CaptureInfo]int
+	empty   int
 	cis     []*gopacket.CaptureInfo
 	unknown []error
 	cancelledAtCall int32
@@ -156,17 +158,14 @@ type c20proc struct {
 func (p *c20proc) ProcessPacketData(data []byte, ci *gopacket.CaptureInfo) error {
 	p.mu.Lock()
 	defer p.mu.Unlock()
-	if len(data) != 8 {
-		p.bad = append(p.bad, fmt.Sprintf("processor got %d bytes", len(data)))
+	// the capture info object identifies the read (frames may be empty, so their bytes cannot)
+	idx, ok := p.rd.ciIdx[ci]
+	if !ok || !c20kind(p.sc.syms[idx]).frame() {
+		p.bad = append(p.bad, fmt.Sprintf("processor got a capture info of no scripted frame (data %x)", data))
 		return nil
 	}
-	idx := int(data[0])<<24 | int(data[1])<<16 | int(data[2])<<8 | int(data[3])
-	if idx < 0 || idx >= len(p.sc.syms) || !c20kind(p.sc.syms[idx]).frame() {
-		p.bad = append(p.bad, fmt.Sprintf("processor got bytes of no scripted frame: %x", data))
-		return nil
-	}
-	if ci != p.rd.cis[idx] {
-		p.bad = append(p.bad, fmt.Sprintf("frame %d delivered with a capture info that is not its own", idx))
+	if string(data) != string(p.rd.frames[idx]) {
+		p.bad = append(p.bad, fmt.Sprintf("frame %d delivered with bytes that are not its own: %x instead of %x", idx, data, p.rd.frames[idx]))
 	}
 	p.seen = append(p.seen, idx)
 	if c20kind(p.sc.syms[idx]) == c20E {
@@ -180,13 +179,26 @@ func c20run(run *vlab.Run, sc c20script) {
 	n := len(sc.syms)
 	ctx, cancel := context.WithCancel(context.Background())
 	defer cancel()
-	rd := &c20reader{sc: &sc, cancel: cancel, frames: make([][]byte, n), cis: make([]*gopacket.CaptureInfo, n), unknown: make([]error, n)}
+	rd := &c20reader{sc: &sc, cancel: cancel, ciIdx: map[*gopacket.CaptureInfo]int{}, frames: make([][]byte, n), cis: make([]*gopacket.CaptureInfo, n), unknown: make([]error, n)}
 	pr := &c20proc{sc: &sc, rd: rd, procErr: make([]error, n)}
 	for i := 0; i < n; i++ {
 		switch c20kind(sc.syms[i]) {
 		case c20F, c20E:
-			rd.frames[i] = []byte{byte(i >> 24), byte(i >> 16), byte(i >> 8), byte(i), 0xde, 0xad, 0xbe, 0xef}
-			rd.cis[i] = &gopacket.CaptureInfo{Length: i}
+			// frames of every size a read can return, the empty one included
+			switch flen := []int{8, 0, -1, 1, 60, 1514, 8, 8}[(i*7+len(sc.syms))%8]; {
+			case flen < 0:
+				rd.frames[i] = nil
+			default:
+				rd.frames[i] = make([]byte, flen)
+				for j := range rd.frames[i] {
+					rd.frames[i][j] = byte(i>>uint(8*(j%4))) ^ byte(j)
+				}
+			}
+			if len(rd.frames[i]) == 0 {
+				rd.empty++
+			}
+			rd.cis[i] = &gopacket.CaptureInfo{Length: i, CaptureLength: len(rd.frames[i])}
+			rd.ciIdx[rd.cis[i]] = i
 			pr.procErr[i] = c20procError(i)
 		case c20U:
 			rd.unknown[i] = fmt.Errorf("scripted unknown read error #%d", i)
@@ -348,6 +360,7 @@ func c20run(run *vlab.Run, sc c20script) {
 	}
 	run.Count("reads", int64(calls))
 	run.Count("frames_processed", int64(len(pr.seen)))
+	run.Count("empty_frames_scripted", int64(rd.empty))
 	run.Count("errors_reported", int64(len(got)))
 	if sc.cancelAt >= 0 {
 		run.Count("cancellations", 1)
